@@ -187,6 +187,35 @@ Proof.
   apply new_dirs_inside_exists. exact Ex.
 Qed.
 
+(* Path.resolve() of a plain directory path is the path itself *)
+Lemma realpath_dirpath s p :
+  (length p < walk_fuel)%nat -> ~ In dotdot p -> dirpath s p ->
+  realpath s [] {| up_abs := true; up_comps := p |} = Some p.
+Proof.
+  intros Hlen Hdd Hd.
+  assert (J : realpath_raw s [] {| up_abs := true; up_comps := p |} = p).
+  { unfold realpath_raw. cbn [up_abs up_comps]. rewrite joinreal_plain; [reflexivity | | assumption |].
+    - pose proof walk_fuel_lt_realpath_fuel. lia.
+    - intros q r E _ i t. cbn [app]. rewrite (Hd q r E). discriminate. }
+  rewrite realpath_unfold, J. rewrite resolve_dirs; [reflexivity | assumption | assumption | assumption].
+Qed.
+
+(* the test on the directory the source really lives in succeeds for a plain source: that directory is
+   input directory ++ all but the last part, a plain directory path *)
+Lemma source_contained_rel s f :
+  WF s -> plain_rel s (pf_dir f) (pf_rel f) -> source_contained s f = Some true.
+Proof.
+  intros W P. unfold source_contained, source_parent. rewrite (pr_root _ _ _ P). cbn [Nat.eqb].
+  rewrite realpath_dirpath.
+  - f_equal. apply is_prefix_path_spec. eexists. reflexivity.
+  - pose proof (pr_len _ _ _ P) as Hlen. rewrite app_length.
+    assert (length (removelast (pp_parts (pf_rel f))) <= length (pp_parts (pf_rel f)))%nat.
+    { destruct (exists_last (pr_ne _ _ _ P)) as [pre [t E]]. rewrite E, removelast_snoc, app_length. simpl. lia. }
+    unfold name in *. lia.
+  - intros K. apply in_app_or in K as [K|K]; [exact (pr_ddd _ _ _ P K) | apply In_removelast in K; exact (pr_dd _ _ _ P K)].
+  - apply dirpath_of_lookup; [assumption | exact (pr_par _ _ _ P)].
+Qed.
+
 (* os.rename of a plain regular file onto a plain free name *)
 Lemma os_rename_rel_ok s d src dst i :
   WF s -> plain_rel s d src -> plain_rel s d dst ->
@@ -748,6 +777,8 @@ Proof.
       destruct (is_prefix_path (pf_dir f) (removelast (pf_dir f ++ removelast (pp_parts (pf_rel f))))).
       2:{ intros Ed Er; inversion Ed; inversion Er; subst. fp_done. }
       rewrite (parents_contained_dd s0 f np _ W0 Pdd), (parents_contained_dd (w_fs wr) f np _ (sim_wf _ _ S) Pdd').
+      rewrite (source_contained_rel s0 f W0 Ps),
+              (source_contained_rel (w_fs wr) f (sim_wf _ _ S) (plain_rel_transfer _ _ _ _ (sim_skel _ _ S) Ps)).
       destruct (sim_renamer_dd wd wr (pf_dir f) (pf_rel f) np _ S Pdd) as [-> ->].
       cbn [is_file_exists].
       apply IH; try assumption. constructor; [|assumption]. unfold plain_entry. cbn [fst snd].
@@ -765,6 +796,8 @@ Proof.
       destruct (is_prefix_path (pf_dir f) (pf_dir f ++ pp_parts np)).
       2:{ intros Ed Er; inversion Ed; inversion Er; subst. fp_done. }
       rewrite (parents_contained_rel s0 f np W0 Pd), (parents_contained_rel (w_fs wr) f np (sim_wf _ _ S) Pd').
+      rewrite (source_contained_rel s0 f W0 Ps),
+              (source_contained_rel (w_fs wr) f (sim_wf _ _ S) (plain_rel_transfer _ _ _ _ (sim_skel _ _ S) Ps)).
       destruct (renamer cD wd (pf_dir f) (pf_rel f) np false) as [wd1 ed1] eqn:Rd.
       destruct (renamer cR wr (pf_dir f) (pf_rel f) np false) as [wr1 er1] eqn:Rr.
       assert (NoOv : false = true -> skel s0 (pf_dir f ++ pp_parts np) = None /\ pp_parts (pf_rel f) <> pp_parts np) by discriminate.
